@@ -199,3 +199,33 @@ def _cls_name(cls, t):
         if v is t:
             return k
     return t.__name__
+
+
+def cases(chk, scope):
+    """spec/MC_Registry.tla: the process-global tables behind register_type and
+    `class E(V, extend=True)`; every history of the machine replayed on the real classes and every
+    query observed afterwards, decided by spec/Trace_Registry.tla.  scope "C16": the whole alphabet,
+    verdict on dispatch; scope "C03": the formatter part of the alphabet, verdict on rendering."""
+    from . import core
+    full = scope == "C16"
+    steps = (2 if chk.tier == "quick" else 3) if full else (3 if chk.tier == "quick" else 4)
+    res = chk.model_check("MC_Registry", {"constants": {"MaxSteps": str(steps),
+                                                        "ActScope": '"all"' if full else '"formatter"'},
+                                          "invariants": ["CompleteCustomTypeAlwaysDispatches", "BuiltinsKeepTheirVisit",
+                                                         "StateIsRunOfHistory", "PrivateFormatterHelpersStayPrivate"],
+                                          "properties": ["RegistrationIsLocal", "ExtensionIsLocal"]},
+                          name="%s_MC_Registry" % chk.pid, dump=True)
+    events = []
+    share = 1.0 if (chk.tier == "quick" or not full) else 0.1
+    for st in core.load_dump(res):
+        if len(st["hist"]) == steps and share < 1.0 and chk.rng.random() >= share:
+            continue
+        ev = replay(st["hist"])
+        ev.update({"id": len(events) + 1, "hist": st["hist"]})
+        events.append(ev)
+        chk.count("registry_histories")
+    chk.require(len(events) >= (1000 if full else 100), "too few registry histories (%d)" % len(events))
+    verdicts = chk.validate_events("Trace_Registry", events, name="%s_Trace_Registry" % chk.pid,
+                                   extra_constants={"Scope": '"%s"' % scope})
+    chk.absorb(events, verdicts, lambda e: {"registry_history": e})
+    chk.sample({"registry_history": events[len(events) // 2]})
